@@ -116,8 +116,123 @@ def m_row_text(sym_t, sym_f, row):
     return m_intercalate('', [sym_t if v else sym_f for v in row])
 
 
+# ---- the table format and the FIMI rows (lemmas/Text.lean, section "the table format")
+
+def m_ljust(w, s):
+    """ljust sp w s = s ++ replicate (w - s.length) sp   (natural subtraction)"""
+    return s + ' ' * max(w - len(s), 0)
+
+
+def m_rjust(w, s):
+    """rjust sp w s = replicate (w - s.length) sp ++ s"""
+    return ' ' * max(w - len(s), 0) + s
+
+
+def m_lstrip(p, s):
+    """lstrip ws s = s.dropWhile ws"""
+    return m_drop_while(p, s)
+
+
+def m_rstrip(p, s):
+    """rstrip ws s = s.rdropWhile ws"""
+    return m_drop_while(p, s[::-1])[::-1]
+
+
+def m_strip_c(c, s):
+    """stripC c s = strip (. = c) s"""
+    return m_rstrip(lambda x: x == c, m_lstrip(lambda x: x == c, s))
+
+
+def m_before(sep, s):
+    """before sep s = s.takeWhile (. != sep)"""
+    i = 0
+    while i < len(s) and s[i] != sep:
+        i += 1
+    return s[:i]
+
+
+def m_after(sep, s):
+    """after sep s = (s.dropWhile (. != sep)).tail"""
+    return m_drop_while(lambda x: x != sep, s)[1:]
+
+
+def m_pct_format(tmpl, args):
+    """pctFormat tmpl args = pctGo .lit tmpl args: the template read character by character in one of the states lit / flag (behind '%') /
+    width left w; None = outside the fragment (literal text, '%[-]<digits>s') or not as many arguments as conversions"""
+    state, out, args = ('lit',), '', list(args)
+    for c in tmpl:
+        digit = '0' <= c <= '9'
+        if state[0] == 'lit':
+            if c == '%':
+                state = ('flag',)
+            else:
+                out += c
+            continue
+        if state[0] == 'flag':
+            if c == '-':
+                state = ('width', True, 0)
+                continue
+            if digit:
+                state = ('width', False, ord(c) - 48)
+                continue
+            state = ('width', False, 0)          # 's' or anything else: as in the width state with no digit read
+        _, left, w = state
+        if digit:
+            state = ('width', left, 10 * w + (ord(c) - 48))
+        elif c == 's' and args:
+            a = args.pop(0)
+            out += m_ljust(w, a) if left else m_rjust(w, a)
+            state = ('lit',)
+        else:
+            return None
+    return out if state == ('lit',) and not args else None
+
+
+def m_col_template(left, w):
+    """colTemplate left w = '%' :: ((if left then ['-'] else []) ++ (dec w ++ ['s']))"""
+    return '%' + ('-' if left else '') + m_dec(w) + 's'
+
+
+def m_sep_of(sep, s):
+    """sepOf sep s = if sep in s then [sep] else []"""
+    return sep if sep in s else ''
+
+
+def m_lines_keep(s):
+    """linesKeep nl: [] -> []; c :: cs -> if c = nl then [c] :: linesKeep cs else (linesKeep cs with c put in front of its first line, or [[c]])"""
+    out, acc = [], ''
+    for c in s:
+        acc += c
+        if c == '\n':
+            out.append(acc)
+            acc = ''
+    return out + ([acc] if acc else [])
+
+
+def m_csv_fields(l):
+    """csvFields sp l = if l = [] then [] else l.splitOn sp"""
+    return [] if l == '' else m_split1(' ', l)
+
+
+def m_chomp(l):
+    """chomp nl l = if l.getLast? = some nl then l.dropLast else l"""
+    return l[:-1] if l[-1:] == '\n' else l
+
+
+def m_csv_rows(text):
+    """csvRows nl sp text = (linesKeep nl text).map (fun l => csvFields sp (chomp nl l))"""
+    return [m_csv_fields(m_chomp(l)) for l in m_lines_keep(text)]
+
+
 # ---------------------------------------------------------------------------------------------------------------------
 # 3a. the concrete interpretation: CPython's own functions
+
+def _total(f):
+    """f with None ("no such text / no such list", the value of an out-of-range lat) passed through"""
+    def g(*a):
+        return None if any(x is None for x in a) else f(*a)
+    return g
+
 
 class PyT:
     """texts = str, Lines = list of str, ints and bools python's; rows = lists of bools"""
@@ -132,7 +247,7 @@ class PyT:
     Not = staticmethod(lambda a: not a)
     Implies = staticmethod(lambda a, b: (not a) or b)
     lit = staticmethod(lambda s: s)
-    strip = staticmethod(lambda x: x.strip())
+    strip = staticmethod(lambda x: None if x is None else x.strip())
     split_nlnl = staticmethod(lambda x: x.split('\n\n'))
     split_nl = staticmethod(lambda x: x.split('\n'))
     split_ws = staticmethod(lambda x: x.split())
@@ -141,7 +256,7 @@ class PyT:
     cat_nl = staticmethod(lambda a, b: a + '\n' + b)
     dec = staticmethod(lambda k: f'{k:d}')
     int_of = staticmethod(lambda x: int(x))
-    tlen = staticmethod(len)
+    tlen = staticmethod(lambda x: -1 if x is None else len(x))
     chr_at = staticmethod(lambda x, i: x[i])
     llen = staticmethod(len)
     lat = staticmethod(lambda L, i: L[i] if 0 <= i < len(L) else None)       # None: no such line (every predicate is False of it)
@@ -151,6 +266,107 @@ class PyT:
     nows = staticmethod(lambda x: x is not None and not any(c.isspace() for c in x))
     lead = staticmethod(lambda x: x is not None and (x == '' or not x[0].isspace()))
     trail = staticmethod(lambda x: x is not None and (x == '' or not x[-1].isspace()))
+
+    # ---- the table format and the FIMI rows: CPython's own functions again (None = "no such text": passed through)
+    cat = staticmethod(_total(lambda a, b: a + b))
+    blanks = staticmethod(lambda k: ' ' * k)
+    ljust = staticmethod(_total(lambda x, w: x.ljust(w)))
+    rjust = staticmethod(_total(lambda x, w: x.rjust(w)))
+    lstrip = staticmethod(_total(lambda x: x.lstrip()))
+    rstrip = staticmethod(_total(lambda x: x.rstrip()))
+    strip_bar = staticmethod(_total(lambda x: x.strip('|')))
+    lstrip_bar = staticmethod(_total(lambda x: x.lstrip('|')))
+    rstrip_bar = staticmethod(_total(lambda x: x.rstrip('|')))
+    before_hash = staticmethod(_total(lambda x: x.partition('#')[0]))
+    sep_hash = staticmethod(_total(lambda x: x.partition('#')[1]))
+    after_hash = staticmethod(_total(lambda x: x.partition('#')[2]))
+    before_bar = staticmethod(_total(lambda x: x.partition('|')[0]))
+    sep_bar = staticmethod(_total(lambda x: x.partition('|')[1]))
+    after_bar = staticmethod(_total(lambda x: x.partition('|')[2]))
+    split_bar = staticmethod(_total(lambda x: x.split('|')))
+    join_bar = staticmethod(_total(lambda L: '|'.join(L)))
+    join_sp = staticmethod(_total(lambda L: ' '.join(L)))
+    tail = staticmethod(_total(lambda L: L[1:]))
+    nobar = staticmethod(lambda x: x is not None and '|' not in x)
+    nohash = staticmethod(lambda x: x is not None and '#' not in x)
+    nosp = staticmethod(lambda x: x is not None and ' ' not in x)
+    allws = staticmethod(lambda x: x is not None and all(c.isspace() for c in x))
+    ilen = staticmethod(len)
+    iat = staticmethod(lambda W, i: W[i] if 0 <= i < len(W) else -1)
+    padded = staticmethod(lambda A, W: [a.ljust(w) for a, w in zip(A, W)])
+    padded_r = staticmethod(lambda A, W: [a.rjust(w) for a, w in zip(A, W)])
+
+    @staticmethod
+    def pct_line(k, W, A, left=True):
+        """the real thing: the template of table.dump_file for the column widths W and the indent k, applied with % to the tuple A
+        (left=False: the template without the '-' flags, i.e. right-justified columns)"""
+        tmpl = ' ' * k + '|'.join((f'%-{w:d}s' if left else f'%{w:d}s') for w in W) + '|'
+        try:
+            return tmpl % tuple(A)
+        except (TypeError, ValueError):     # not as many arguments as columns / a width the template cannot carry: no such text
+            return None
+
+    @staticmethod
+    def readlines(x):
+        """the real thing: iterating the file object Format.loads hands to loadf"""
+        with io.StringIO(x) as buf:
+            return [line for line in buf]
+
+    @staticmethod
+    def written_plain(L):
+        """the real thing: print every line into an io.StringIO(newline='') (the buffer of a format with newline = '')"""
+        with io.StringIO(newline='') as buf:
+            for l in L:
+                print(l, file=buf)
+            return buf.getvalue()
+
+    # the csv module in the dialect of concepts/formats/fimi.py (the units check the class body of FimiDialect against FIMI_DIALECT)
+    @staticmethod
+    def _fimi_dialect():
+        import csv
+
+        class FimiDialect(csv.Dialect):
+            delimiter = FIMI_DIALECT['delimiter']
+            quotechar = FIMI_DIALECT['quotechar']
+            escapechar = FIMI_DIALECT['escapechar']
+            quoting = getattr(csv, FIMI_DIALECT['quoting'])
+            lineterminator = FIMI_DIALECT['lineterminator']
+            strict = FIMI_DIALECT['strict']
+        return FimiDialect
+
+    @classmethod
+    def csv_text(cls, rows):
+        """the real thing: csv.writer(buf, dialect=FimiDialect).writerows(rows) into an io.StringIO(newline='')"""
+        import csv
+        with io.StringIO(newline='') as buf:
+            csv.writer(buf, dialect=cls._fimi_dialect()).writerows(rows)
+            return buf.getvalue()
+
+    @classmethod
+    def csv_rows(cls, x):
+        """the real thing: the rows csv.reader(buf, dialect=FimiDialect) yields for a file opened with newline=''"""
+        import csv
+        with io.StringIO(x, newline='') as buf:
+            return list(csv.reader(buf, dialect=cls._fimi_dialect()))
+
+    @classmethod
+    def csv_nrows(cls, x):
+        return len(cls.csv_rows(x))
+
+    @classmethod
+    def csv_row(cls, x, t):
+        rows = cls.csv_rows(x)
+        return rows[t] if 0 <= t < len(rows) else None
+
+    csv_fields = staticmethod(m_csv_fields)        # no CPython function of its own: the per-line view of the reader (L_csv_rows ties it to csv.reader)
+    idx_rows = staticmethod(len)                                   # rows of index numbers: how many, how long, which number
+    idx_len = staticmethod(lambda R, t: len(R[t]))
+    idx_at = staticmethod(lambda R, t, c: R[t][c])
+    fimi_nums = staticmethod(lambda R, t: [f'{i:d}' for i in R[t]] if 0 <= t < len(R) else None)
+
+    @classmethod
+    def fimi_lines(cls, R):
+        return [' '.join(cls.fimi_nums(R, t)) for t in range(len(R))]
 
     @staticmethod
     def written(L):
@@ -182,10 +398,16 @@ class PyT:
         return self.values[ch]
 
 
+FIMI_DIALECT = {'delimiter': ' ', 'quotechar': None, 'escapechar': None, 'quoting': 'QUOTE_NONE', 'lineterminator': '\n', 'strict': True}
+
+
 def holds(T, item):
     """truth of a schema item under the concrete interpretation"""
     if item[0] == 'fact':
         return bool(item[2])
+    if item[0] == 'forall2':            # ('forall2', name, lo, hi, lo2(t), hi2(t), body(t, c), pattern(t, c)): for all lo <= t < hi, lo2(t) <= c < hi2(t)
+        _, _, lo, hi, lo2, hi2, body, _ = item
+        return all(body(t, c) for t in range(lo, hi) for c in range(lo2(t), hi2(t)))
     _, _, lo, hi, body, _ = item
     return all(body(t) for t in range(lo, hi))
 
@@ -252,6 +474,84 @@ class Z3T:
                 ('lines.len-nonneg', z3.ForAll([L], self.llen(L) >= 0, patterns=[self.llen(L)])),
                 # definition of ne
                 ('txt.ne-is-positive-length', z3.ForAll([x], self.ne(x) == (self.tlen(x) > 0), patterns=[self.ne(x)]))]
+
+
+class Z3TT(Z3T):
+    """Z3T plus the vocabulary of the table format and of the FIMI rows (units of contracts/formats_chars_table.py; the cxt units keep Z3T).
+
+    cat(a, b) = a + b      blanks(k) = ' ' * k      ljust(x, w)  rjust(x, w)      lstrip(x)  rstrip(x)
+    strip_bar(x) = x.strip('|')  lstrip_bar  rstrip_bar      before_hash(x), sep_hash(x), after_hash(x) = x.partition('#')      before_bar, sep_bar, after_bar
+    split_bar(x) = x.split('|')      join_bar(L) = '|'.join(L)      join_sp(L) = ' '.join(L)      tail(L) = L[1:]
+    readlines(x) = the lines `for line in io.StringIO(x)` yields      written_plain(L): print of every line into an io.StringIO(newline='')
+    Ints: a list of ints, ilen(W), iat(W, i)      padded(A, W) = [a.ljust(w) for a, w in zip(A, W)]  padded_r: rjust
+    pct_line(k, W, A) = (' ' * k + '|'.join(f'%-{w:d}s' for w in W) + '|') % tuple(A)      pct_line_r: the same without the '-' flags
+    nobar(x): no '|' in x     nohash(x): no '#'     nosp(x): no ' '     allws(x): every character of x is whitespace (holds of '')
+    csv_nrows(x), csv_row(x, t): the rows csv.reader(file, dialect=FimiDialect) yields for a file with the text x (opened with newline='')
+    csv_fields(l): the fields the reader makes of the line l      csv_text(R): what csv.writer(file, dialect=FimiDialect).writerows(R) writes
+    rows of index numbers R: idx_rows(R), idx_len(R, t), idx_at(R, t, c);  fimi_nums(R, t) = [f'{i:d}' for i in R[t]];  fimi_lines(R)
+    """
+
+    PREDICATES = ('ne', 'nonl', 'nocr', 'nows', 'lead', 'trail', 'nobar', 'nohash', 'nosp', 'allws')
+
+    def __init__(self):
+        Z3T.__init__(self)
+        z3 = self.z3
+        I, B, Txt, Lines = z3.IntSort(), z3.BoolSort(), self.Txt, self.Lines
+        F = z3.Function
+        self.Ints, self.Rows = z3.DeclareSort('Ints'), z3.DeclareSort('IndexRows')
+        self.cat = F('txt.cat', Txt, Txt, Txt)
+        self.blanks = F('txt.blanks', I, Txt)
+        self.ljust, self.rjust = F('txt.ljust', Txt, I, Txt), F('txt.rjust', Txt, I, Txt)
+        for nm in ('lstrip', 'rstrip', 'strip_bar', 'lstrip_bar', 'rstrip_bar', 'before_hash', 'sep_hash', 'after_hash', 'before_bar', 'sep_bar',
+                   'after_bar'):
+            setattr(self, nm, F('txt.' + nm, Txt, Txt))
+        self.split_bar = F('txt.split(bar)', Txt, Lines)
+        self.join_bar, self.join_sp = F('txt.join(bar)', Lines, Txt), F('txt.join(sp)', Lines, Txt)
+        self.tail = F('lines.tail', Lines, Lines)
+        self.readlines = F('txt.readlines', Txt, Lines)
+        self.written_plain = F('txt.written_plain', Lines, Txt)
+        self.ilen, self.iat = F('ints.len', self.Ints, I), F('ints.at', self.Ints, I, I)
+        self.padded, self.padded_r = F('lines.padded', Lines, self.Ints, Lines), F('lines.padded_r', Lines, self.Ints, Lines)
+        self._pct, self._pct_r = F('txt.pct_line', I, self.Ints, Lines, Txt), F('txt.pct_line_r', I, self.Ints, Lines, Txt)
+        for nm in ('nobar', 'nohash', 'nosp', 'allws'):
+            setattr(self, nm, F('txt.' + nm, Txt, B))
+        self.csv_nrows, self.csv_row = F('csv.nrows', Txt, I), F('csv.row', Txt, I, Lines)
+        self.csv_fields = F('csv.fields', Txt, Lines)
+        self.csv_text = F('csv.text', self.Rows, Txt)
+        self.idx_rows, self.idx_len, self.idx_at = F('rows.len', self.Rows, I), F('rows.rowlen', self.Rows, I, I), F('rows.at', self.Rows, I, I, I)
+        self.fimi_nums, self.fimi_lines = F('fimi.nums', self.Rows, I, Lines), F('fimi.lines', self.Rows, Lines)
+
+    def pct_line(self, k, W, A, left=True):
+        return (self._pct if left else self._pct_r)(k, W, A)
+
+    def literal_facts(self):
+        P = PyT
+        out = []
+        for s in self._codes:
+            t = self.lit(s)
+            for nm in self.PREDICATES:
+                out.append(('literal %r: %s' % (s, nm), getattr(self, nm)(t) == bool(getattr(P, nm)(s))))
+            out.append(('literal %r: len' % s, self.tlen(t) == len(s)))
+        if len(self._codes) > 1:
+            out.append(('literals-distinct', self.z3.Distinct(*[self.lit(s) for s in self._codes])))
+        return out
+
+    def axioms(self):
+        """Z3T's, and the DEFINITIONAL facts of the list vocabulary (Lean: List.nil_append / append_nil, List.length_append, List.length_tail,
+        List.getElem_tail) -- no fact about the characters of a text"""
+        z3 = self.z3
+        x, y, L, t = z3.Const('x', self.Txt), z3.Const('y', self.Txt), z3.Const('L', self.Lines), z3.Int('t')
+        W = z3.Const('W', self.Ints)
+        e = self.lit('')
+        return Z3T.axioms(self) + [
+            ('txt.cat-empty-left', z3.ForAll([y], self.cat(e, y) == y, patterns=[self.cat(e, y)])),
+            ('txt.cat-empty-right', z3.ForAll([x], self.cat(x, e) == x, patterns=[self.cat(x, e)])),
+            ('txt.cat-length', z3.ForAll([x, y], self.tlen(self.cat(x, y)) == self.tlen(x) + self.tlen(y), patterns=[self.cat(x, y)])),
+            ('txt.empty-literal-has-length-0', self.tlen(e) == 0),
+            ('lines.tail-length', z3.ForAll([L], z3.Implies(self.llen(L) >= 1, self.llen(self.tail(L)) == self.llen(L) - 1), patterns=[self.tail(L)])),
+            ('lines.tail-items', z3.ForAll([L, t], z3.Implies(z3.And(0 <= t, t < self.llen(L) - 1), self.lat(self.tail(L), t) == self.lat(L, t + 1)),
+                                           patterns=[self.lat(self.tail(L), t)])),
+            ('ints.len-nonneg', z3.ForAll([W], self.ilen(W) >= 0, patterns=[self.ilen(W)]))]
 
 
 # ---------------------------------------------------------------------------------------------------------------------
@@ -348,9 +648,161 @@ def L_row(T, row):
                    lambda c: T.chr_at(x, c))]
 
 
+# ---- the table format (interpretations: PyT, Z3TT)
+
+def L_percent(T, k, W, A, left=True):
+    """Text.pct_line, with the LIBRARY ASSUMPTION "the %-operator of str computes pctFormat on templates made of literal text and conversions
+    %-<digits>s / %<digits>s" (the template of table.dump_file; f'{w:d}' = dec w):
+    (' ' * k + '|'.join(f'%-{w:d}s' for w in W) + '|') % tuple(A)  ==  ' ' * k + '|'.join(a.ljust(w) for a, w in zip(A, W)) + '|'
+    for texts A, one per column, at least one column, natural widths W, any int k (' ' * k is '' for k <= 0).
+    left=False: the template with '%{w:d}s' (no '-' flag) gives rjust instead of ljust."""
+    P = (T.padded if left else T.padded_r)(A, W)
+    pad = T.ljust if left else T.rjust
+    prem = [('fact', 'one-argument-per-column-at-least-one-column', T.And(T.ilen(W) == T.llen(A), T.llen(A) >= 1)),
+            ('forall', 'widths-are-natural', 0, T.ilen(W), lambda t: T.iat(W, t) >= 0, lambda t: T.iat(W, t))]
+    return prem, [('fact', 'formatted-line', T.And(T.pct_line(k, W, A, left) == T.cat(T.blanks(k), T.cat(T.join_bar(P), T.lit('|'))),
+                                                   T.llen(P) == T.llen(A))),
+                  ('forall', 'padded-cells', 0, T.llen(A), lambda t: T.lat(P, t) == pad(T.lat(A, t), T.iat(W, t)), lambda t: T.lat(P, t))]
+
+
+def L_pad(T, x, w, left=True):
+    """Text.strip_ljust, mem_ljust (at '|', '#', '\\n', '\\r': none of them is the padding character), ljust_ne_nil, ljust_all, strip_all,
+    ljust_eq_self (left=False: strip_rjust, mem_rjust, rjust_ne_nil, rjust_all, rjust_eq_self):  for w >= 0, y = x.ljust(w):
+    x neither starts nor ends with whitespace ==> y.strip() == x;  y contains '|' / '#' / '\\n' / '\\r' only if x does;
+    y is non-empty if x is or w >= 1;  x all whitespace ==> y is all whitespace and y.strip() == '';  w <= len(x) ==> y == x"""
+    y = T.ljust(x, w) if left else T.rjust(x, w)
+    return [('fact', 'natural-width', w >= 0)], [
+        ('fact', 'padded', T.And(T.Implies(T.And(T.lead(x), T.trail(x)), T.strip(y) == x),
+                                 T.Implies(T.nobar(x), T.nobar(y)), T.Implies(T.nohash(x), T.nohash(y)),
+                                 T.Implies(T.nonl(x), T.nonl(y)), T.Implies(T.nocr(x), T.nocr(y)),
+                                 T.Implies(T.Or(T.ne(x), w >= 1), T.ne(y)),
+                                 T.Implies(T.allws(x), T.And(T.allws(y), T.strip(y) == T.lit(''))),
+                                 T.Implies(w <= T.tlen(x), y == x)))]
+
+
+def table_line_text(T, k, C):
+    """k blanks, the cells joined with bars, a closing bar"""
+    return T.cat(T.blanks(k), T.cat(T.join_bar(C), T.lit('|')))
+
+
+def L_table_line(T, k, C):
+    """Text.table_line (both with and without the line end), Text.bar_cells:  C = c0 :: rest at least two cells, no cell contains '|' or
+    '#', the cells after the first are not empty;  x = ' ' * k + '|'.join(C) + '|',  z = x or x + '\\n'  ==>
+      z.partition('#')[0] == z;   z.strip() == S := c0.lstrip() + '|' + '|'.join(rest) + '|';
+      S.partition('|') == (c0.lstrip(), '|', Fl) with Fl := '|'.join(rest) + '|';   Fl.strip('|') == Fl.rstrip('|') == '|'.join(rest),  Fl.lstrip('|') == Fl;
+      c0 all whitespace ==> S.strip('|') == '|'.join(rest);   '|'.join(rest).split('|') == rest;   c0.lstrip().strip() == c0.lstrip().rstrip() == c0.strip()"""
+    bar, nl = T.lit('|'), T.lit('\n')
+    c0, rest = T.lat(C, 0), T.tail(C)
+    prem = [('fact', 'at-least-two-cells', T.llen(C) >= 2),
+            ('forall', 'cells-without-bar-and-comment-sign', 0, T.llen(C), lambda t: T.And(T.nobar(T.lat(C, t)), T.nohash(T.lat(C, t))),
+             lambda t: T.lat(C, t)),
+            ('forall', 'cells-after-the-first-are-not-empty', 1, T.llen(C), lambda t: T.ne(T.lat(C, t)), lambda t: T.lat(C, t))]
+    x = table_line_text(T, k, C)
+    xn = T.cat(x, nl)
+    J = T.join_bar(rest)
+    Fl = T.cat(J, bar)
+    S = T.cat(T.lstrip(c0), T.cat(bar, Fl))
+    return prem, [('fact', 'comment-sign-absent', T.And(T.before_hash(x) == x, T.before_hash(xn) == xn)),
+                  ('fact', 'stripped-line', T.And(T.strip(x) == S, T.strip(xn) == S)),
+                  ('fact', 'cut-at-the-first-bar', T.And(T.before_bar(S) == T.lstrip(c0), T.sep_bar(S) == bar, T.after_bar(S) == Fl)),
+                  ('fact', 'closing-bar-stripped', T.And(T.strip_bar(Fl) == J, T.rstrip_bar(Fl) == J, T.lstrip_bar(Fl) == Fl)),
+                  ('fact', 'header-bars-stripped', T.Implies(T.allws(c0), T.strip_bar(S) == J)),
+                  ('fact', 'cells-back', T.split_bar(J) == rest),
+                  ('fact', 'first-cell-stripped', T.And(T.strip(T.lstrip(c0)) == T.strip(c0), T.rstrip(T.lstrip(c0)) == T.strip(c0)))]
+
+
+def L_line_chars(T, k, C):
+    """Text.table_line_chars at '\\n' and '\\r' (neither is the blank or the bar), pyWs '|' = false:  no cell contains '\\n' / '\\r'  ==>
+    x = ' ' * k + '|'.join(C) + '|' contains neither, is not empty and does not end with whitespace (it ends with '|')"""
+    prem = [('forall', 'cells-without-line-breaks', 0, T.llen(C), lambda t: T.And(T.nonl(T.lat(C, t)), T.nocr(T.lat(C, t))), lambda t: T.lat(C, t))]
+    x = table_line_text(T, k, C)
+    return prem, [('fact', 'line-characters', T.And(T.nonl(x), T.nocr(x), T.ne(x), T.trail(x)))]
+
+
+def L_rstrip_text(T, All):
+    """Text.rstrip_unlines: at least one line, the last one not empty and not ending with whitespace  ==>
+    (what printing the lines leaves).rstrip() == '\\n'.join(All): only the final line end goes"""
+    last = T.lat(All, T.llen(All) - 1)
+    prem = [('fact', 'at-least-one-line', T.llen(All) >= 1),
+            ('fact', 'last-line-nonempty-not-ending-with-whitespace', T.Implies(T.llen(All) >= 1, T.And(T.ne(last), T.trail(last))))]
+    return prem, [('fact', 'only-the-final-line-end-goes', T.rstrip(T.unlines(All)) == T.join_nl(All))]
+
+
+def L_readlines(T, L):
+    """LIBRARY ASSUMPTION `for line in io.StringIO(text)` yields linesKeep '\\n' text, and Text.linesKeep_intercalate / linesKeep_unlines:
+    at least one line, no line contains '\\n', the last one is not empty  ==>  iterating over '\\n'.join(L) gives len(L) lines, every line but
+    the last with its line end; iterating over the printed text (every line followed by '\\n') gives every line with its line end"""
+    n = T.llen(L)
+    nl = T.lit('\n')
+    prem = [('fact', 'at-least-one-line', n >= 1),
+            ('forall', 'lines-without-newline', 0, n, lambda t: T.nonl(T.lat(L, t)), lambda t: T.lat(L, t)),
+            ('fact', 'last-line-nonempty', T.Implies(n >= 1, T.ne(T.lat(L, n - 1))))]
+    R, R2 = T.readlines(T.join_nl(L)), T.readlines(T.unlines(L))
+    return prem, [('fact', 'as-many-lines', T.And(T.llen(R) == n, T.llen(R2) == n, T.lat(R, n - 1) == T.lat(L, n - 1))),
+                  ('forall', 'lines-with-their-line-ends', 0, n - 1, lambda t: T.lat(R, t) == T.cat(T.lat(L, t), nl), lambda t: T.lat(R, t)),
+                  ('forall', 'printed-lines-with-their-line-ends', 0, n, lambda t: T.lat(R2, t) == T.cat(T.lat(L, t), nl), lambda t: T.lat(R2, t))]
+
+
+def L_written_plain(T, All):
+    """LIBRARY ASSUMPTION (not Lean): print(l, file=buf) for every line l, buf = io.StringIO(newline=''), leaves in buf the lines each
+    followed by '\\n' (no translation at all with newline=''); io.StringIO(text).read() gives text back"""
+    W = T.written_plain(All)
+    return [], [('fact', 'written-text', T.And(W == T.unlines(All), T.read_back(W) == W))]
+
+
+# ---- FIMI: rows of decimal index numbers (interpretations: PyT, Z3TT)
+
+def L_csv_written(T, R):
+    """LIBRARY ASSUMPTION (not Lean; the C csv module): csv.writer(file, dialect=FimiDialect).writerows(R) for rows R of NATURAL numbers
+    writes, for every row, str() of its numbers joined with single blanks, then '\\n' -- an empty row is an empty line -- into a file that does
+    not translate line ends (opened with newline=''); str(i) == f'{i:d}'.  fimi_nums / fimi_lines name the number texts and the lines."""
+    n = T.idx_rows(R)
+    L = T.fimi_lines(R)
+    prem = [('forall2', 'index-numbers-are-natural', 0, n, lambda t: 0, lambda t: T.idx_len(R, t), lambda t, c: T.idx_at(R, t, c) >= 0,
+             lambda t, c: T.idx_at(R, t, c))]
+    return prem, [('fact', 'written-text', T.And(T.csv_text(R) == T.unlines(L), T.llen(L) == n)),
+                  ('forall', 'one-line-per-row', 0, n, lambda t: T.lat(L, t) == T.join_sp(T.fimi_nums(R, t)), lambda t: T.lat(L, t)),
+                  ('forall', 'one-number-text-per-number', 0, n, lambda t: T.llen(T.fimi_nums(R, t)) == T.idx_len(R, t), lambda t: T.fimi_nums(R, t)),
+                  ('forall2', 'numbers-in-decimal', 0, n, lambda t: 0, lambda t: T.idx_len(R, t),
+                   lambda t, c: T.lat(T.fimi_nums(R, t), c) == T.dec(T.idx_at(R, t, c)), lambda t, c: T.lat(T.fimi_nums(R, t), c))]
+
+
+def L_dec_sp(T, k):
+    """Text.dec_no_sp, Text.dec_ne_nil, Text.dec_not_ws with Text.nows_facts: for k >= 0, f'{k:d}' is not empty and contains no ' ', '\\n', '\\r'"""
+    d = T.dec(k)
+    return [('fact', 'natural-number', k >= 0)], [('fact', 'decimal-digits-only', T.And(T.ne(d), T.nosp(d), T.nonl(d), T.nocr(d)))]
+
+
+def L_csv_fields(T, D):
+    """Text.csvFields_intercalate, Text.not_mem_intercalate (at '\\n', '\\r'): fields that are not empty and contain no ' ' / '\\n' / '\\r'
+    ==>  the reader's fields of ' '.join(D) are D (for D == [] the line is '' and has NO field), and the line contains no '\\n' / '\\r'"""
+    prem = [('forall', 'fields-nonempty-without-delimiter-and-line-breaks', 0, T.llen(D),
+             lambda t: T.And(T.ne(T.lat(D, t)), T.nosp(T.lat(D, t)), T.nonl(T.lat(D, t)), T.nocr(T.lat(D, t))), lambda t: T.lat(D, t))]
+    x = T.join_sp(D)
+    return prem, [('fact', 'fields-back', T.And(T.csv_fields(x) == D, T.nonl(x), T.nocr(x)))]
+
+
+def L_csv_rows(T, L):
+    """LIBRARY ASSUMPTION csv.reader(file, dialect=FimiDialect) over a file opened with newline='' yields csvRows '\\n' ' ' text (line by
+    line, line end removed, csvFields), and Text.csvRows_unlines:  no line contains '\\n' or '\\r'  ==>  the reader yields one row per printed
+    line, row t = the fields of line t"""
+    n = T.llen(L)
+    prem = [('forall', 'lines-without-line-breaks', 0, n, lambda t: T.And(T.nonl(T.lat(L, t)), T.nocr(T.lat(L, t))), lambda t: T.lat(L, t))]
+    x = T.unlines(L)
+    return prem, [('fact', 'one-row-per-line', T.csv_nrows(x) == n),
+                  ('forall', 'rows-are-the-fields-of-the-lines', 0, n, lambda t: T.csv_row(x, t) == T.csv_fields(T.lat(L, t)), lambda t: T.csv_row(x, t))]
+
+
 LEAN = {'L_source_parts': ['cxt_source_parts'], 'L_numbers': ['splitWs_pair'], 'L_dec': ['intOf_dec', 'dec_ne_nil', 'dec_not_ws'],
         'L_nows': ['nows_facts'], 'L_table_lines': ['table_lines'], 'L_split_join': ['split_join', 'split_join_nil'], 'L_strip_id': ['strip_eq_self'],
-        'L_row': ['length_rowText', 'rowText_facts', 'mem_rowText', 'values_rowText_any'], 'L_written': []}
+        'L_row': ['length_rowText', 'rowText_facts', 'mem_rowText', 'values_rowText_any'], 'L_written': [],
+        # the table format, FIMI
+        'L_percent': ['pct_line'], 'L_pad': ['strip_ljust', 'strip_rjust', 'mem_ljust', 'mem_rjust', 'ljust_ne_nil', 'rjust_ne_nil', 'ljust_all', 'rjust_all', 'strip_all',
+                                    'ljust_eq_self', 'rjust_eq_self'],
+        'L_table_line': ['table_line', 'bar_cells', 'strip_lstrip', 'strip_eq_rstrip_lstrip', 'sepOf_append_sep'], 'L_line_chars': ['table_line_chars'], 'L_rstrip_text': ['rstrip_unlines'],
+        'L_readlines': ['linesKeep_intercalate', 'linesKeep_unlines'], 'L_written_plain': [], 'L_csv_written': [],
+        'L_dec_sp': ['dec_no_sp', 'dec_ne_nil', 'dec_not_ws', 'nows_facts'], 'L_csv_fields': ['csvFields_intercalate', 'not_mem_intercalate'],
+        'L_csv_rows': ['csvRows_unlines']}
 
 
 # ---------------------------------------------------------------------------------------------------------------------
@@ -421,10 +873,13 @@ def selftest(maxlen=5, verbose=False):
                 assert ''.join({False: sym_f, True: sym_t}[v] for v in row) == m_row_text(sym_t, sym_f, row)
                 n += 1
 
+    n += _selftest_table_model(maxlen)
+
     # the lemma schemas, evaluated with CPython's functions
     def count(name, k):
         live[name] = live.get(name, 0) + k
     T = PyT()
+    _selftest_table_schemas(T, count, live)
     words = [w for w in _texts(('a', ' ', '\n', '\r', '\t', '0'), 3)]
     for x in _texts(ALPHABET, 3):
         count('L_strip_id', _check_schema(T, *L_strip_id(T, x)))
@@ -461,6 +916,135 @@ def selftest(maxlen=5, verbose=False):
     if verbose:
         print(live)
     return n + sum(live.values())
+
+
+def _selftest_table_model(maxlen):
+    """CPython against the python copy of the definitions of the table / FIMI section of Text.lean, on an enumerated scope"""
+    import csv
+    n = 0
+    chars = ('a', ' ', '|', '#', '\n', '\t', '　', 'X')
+    for s in _texts(chars, maxlen):
+        assert s.lstrip() == m_lstrip(m_ws, s) and s.rstrip() == m_rstrip(m_ws, s) and s.strip() == m_rstrip(m_ws, m_lstrip(m_ws, s)), repr(s)
+        assert s.strip('|') == m_strip_c('|', s) and s.lstrip('|') == m_lstrip(lambda c: c == '|', s) and s.rstrip('|') == m_rstrip(lambda c: c == '|', s), repr(s)
+        for sep in ('#', '|'):
+            b, m_, a = s.partition(sep)
+            assert b == m_before(sep, s) and a == m_after(sep, s) and m_ == m_sep_of(sep, s) and b + m_ + a == s, repr(s)
+        assert s.split('|') == m_split1('|', s), repr(s)
+        assert PyT.readlines(s) == m_lines_keep(s), repr(s)
+        for w in range(0, maxlen + 3):
+            assert s.ljust(w) == m_ljust(w, s) == '%-*s' % (w, s) and s.rjust(w) == m_rjust(w, s) == '%*s' % (w, s), (s, w)
+            assert ('%%-%ds' % w) % s == m_ljust(w, s) and ('%%%ds' % w) % s == m_rjust(w, s) and f'%-{w:d}s' % (s,) == m_ljust(w, s), (s, w)
+        n += 8 + 3 * (maxlen + 3)
+    # file iteration does not cut at '\r' (the default newline of io.StringIO(text) is '\n'); print into newline='' does not translate
+    assert PyT.readlines('a\rb\nc\r\n') == ['a\rb\n', 'c\r\n'] == m_lines_keep('a\rb\nc\r\n') and PyT.written_plain(['a\rb', 'c']) == 'a\rb\nc\n'
+    for k in range(-2, 5):
+        assert ' ' * k == ' ' * max(k, 0) and PyT.blanks(k) == ''.join(' ' for _ in range(k))
+        n += 1
+    pieces = ['', 'a', ' ', 'a b', '|', 'X', 'a|b']
+    for k in range(0, 4):
+        for ls in itertools.product(pieces, repeat=k):
+            assert '|'.join(ls) == m_intercalate('|', list(ls)) and ' '.join(ls) == m_intercalate(' ', list(ls))
+            n += 2
+    # the % operator on the template of table.dump_file: widths, arguments, indents
+    args = ['', 'a', 'X', 'a b', '%s', '%', 'long label', '　x', '|', '#']
+    for ncol in (1, 2, 3):
+        for W in itertools.product((0, 1, 2, 5), repeat=ncol):
+            for A in itertools.product(args, repeat=ncol) if ncol < 3 else itertools.product(args[:5], repeat=ncol):
+                for k in (-1, 0, 3):
+                    assert PyT.pct_line(k, W, A) == ' ' * k + '|'.join(m_ljust(w, a) for a, w in zip(A, W)) + '|', (k, W, A)
+                    assert PyT.pct_line(k, W, A, left=False) == ' ' * k + '|'.join(m_rjust(w, a) for a, w in zip(A, W)) + '|', (k, W, A)
+                    n += 2
+    # the % operator against the model of the fragment: every template over these characters; where the model gives a text, CPython gives the
+    # same; where the model gives None because the arguments do not match the conversions, CPython raises TypeError
+    for tmpl in _texts(('%', '-', '1', '0', 's', 'a', '|'), maxlen + 1):
+        for A in ((), ('x',), ('xy z', ''), ('', 'X', 'long')):
+            want = m_pct_format(tmpl, A)
+            try:
+                got = tmpl % A
+            except (TypeError, ValueError):
+                got = None
+            if want is not None:
+                assert got == want, (tmpl, A, got, want)
+                n += 1
+            elif m_pct_format(tmpl, A[:1]) is not None or any(m_pct_format(tmpl, A + ('q',) * j) is not None for j in (1, 2, 3)):
+                assert got is None, (tmpl, A, got)          # in the fragment, but not as many arguments as conversions
+                n += 1
+    for w in (0, 1, 9, 10, 11, 105):
+        for left in (False, True):
+            assert m_col_template(left, w) == (f'%-{w:d}s' if left else f'%{w:d}s')
+            for a in ('', 'ab', 'a' * 12, '　'):
+                assert m_pct_format('x' + m_col_template(left, w) + '|', [a]) == 'x' + (a.ljust(w) if left else a.rjust(w)) + '|' == \
+                    ('x' + m_col_template(left, w) + '|') % (a,)
+                n += 1
+    for bad in ((2, 1), (1, 2)):          # as many arguments as columns: TypeError otherwise (PyT.pct_line: None, "no such text")
+        assert PyT.pct_line(0, [1] * bad[0], ['a'] * bad[1]) is None
+        try:
+            '|'.join('%-1s' for _ in range(bad[0])) % tuple(['a'] * bad[1])
+            raise AssertionError('no TypeError for %r' % (bad,))
+        except TypeError:
+            pass
+    # the csv module in the FIMI dialect: the reader on every text over digits, blank, line end; the writer on rows of naturals
+    for s in _texts(('0', '7', ' ', '\n'), maxlen + 2):
+        assert PyT.csv_rows(s) == m_csv_rows(s), repr(s)
+        n += 1
+    nums = [0, 7, 10, 123456789012345678901234567890]
+    pool = [[]] + [list(c) for r in (1, 2) for c in itertools.product(nums, repeat=r)]
+    for k in range(0, 3):
+        for rows in itertools.product(pool, repeat=k):
+            text = PyT.csv_text(rows)
+            assert text == m_unlines([m_intercalate(' ', [m_dec(i) for i in r]) for r in rows]), rows
+            assert [[m_int_of(f) for f in r] for r in m_csv_rows(text)] == [list(r) for r in rows] == [list(map(int, r)) for r in PyT.csv_rows(text)], rows
+            n += 2
+    assert PyT.csv_rows('\n') == [[]] and ''.split(' ') == [''] and m_csv_fields('') == []      # an empty line has NO field (str.split would give one)
+    assert csv.QUOTE_NONE == getattr(csv, FIMI_DIALECT['quoting'])
+    return n
+
+
+def _selftest_table_schemas(T, count, live):
+    """every schema of the table / FIMI section, evaluated with CPython's functions; counts the non-vacuous instances"""
+    labels = ['', 'a', ' ', 'a b', ' a', 'a ', 'X', 'a|b', '#', 'a\nb', 'a\rb', '\t', 'long label', '　', 'x　']
+    for x in labels:
+        for w in range(0, 7):
+            count('L_pad', _check_schema(T, *L_pad(T, x, w)))
+            count('L_pad', _check_schema(T, *L_pad(T, x, w, left=False)))
+        count('L_pad/negative-width', _check_schema(T, *L_pad(T, x, -1)))
+    cells = ['', ' ', 'a', 'a ', ' a', 'X  ', '  ', 'a|', '#', 'a b ', '\t', 'a\n']
+    for ncell in (0, 1, 2, 3):
+        for C in itertools.product(cells, repeat=ncell) if ncell < 3 else itertools.product(cells[:8], repeat=ncell):
+            for k in (0, 2, -1):
+                count('L_table_line', _check_schema(T, *L_table_line(T, k, list(C))))
+                count('L_line_chars', _check_schema(T, *L_line_chars(T, k, list(C))))
+    args = ['', 'a', 'X', 'a b', '%s', '|']
+    for ncol in (0, 1, 2, 3):
+        for W in itertools.product((0, 1, 3, -1), repeat=ncol):
+            for A in itertools.product(args, repeat=ncol) if ncol < 3 else itertools.product(args[:3], repeat=ncol):
+                for k in (0, 2, -3):
+                    count('L_percent', _check_schema(T, *L_percent(T, k, list(W), list(A))))
+                    count('L_percent', _check_schema(T, *L_percent(T, k, list(W), list(A), left=False)))
+    count('L_percent/wrong-argument-count', _check_schema(T, *L_percent(T, 0, [1, 1], ['a'])))
+    lines = ['', 'a', ' ', 'a|', 'a ', 'a\nb', 'a\rb', ' |c|', '\n', 'x\t']
+    for k in range(0, 4):
+        for L in itertools.product(lines, repeat=k):
+            L = list(L)
+            count('L_rstrip_text', _check_schema(T, *L_rstrip_text(T, L)))
+            count('L_readlines', _check_schema(T, *L_readlines(T, L)))
+            count('L_written_plain', _check_schema(T, *L_written_plain(T, L)))
+    for k in list(range(0, 300)) + [-1, -7, 10 ** 25]:
+        count('L_dec_sp', _check_schema(T, *L_dec_sp(T, k)))
+    fields = ['', '0', '7', '12', ' ', '1 2', 'a', '1\n', '1\r', '305']
+    for k in range(0, 4):
+        for D in itertools.product(fields, repeat=k):
+            count('L_csv_fields', _check_schema(T, *L_csv_fields(T, list(D))))
+    flines = ['', '0', '0 2', '12 7 305', '1\n2', '1\r', ' ', '0  1', 'a b']
+    for k in range(0, 4):
+        for L in itertools.product(flines, repeat=k):
+            count('L_csv_rows', _check_schema(T, *L_csv_rows(T, list(L))))
+    rows = [[], [0], [0, 2], [12, 7, 305], [-1], [10 ** 25, 0]]
+    for k in range(0, 4):
+        for R in itertools.product(rows, repeat=k):
+            count('L_csv_written', _check_schema(T, *L_csv_written(T, [list(r) for r in R])))
+    for name in ('L_pad/negative-width', 'L_percent/wrong-argument-count'):      # premises violated on purpose: vacuous, not false
+        assert live.pop(name) == 0, name
 
 
 # ---------------------------------------------------------------------------------------------------------------------
@@ -521,13 +1105,39 @@ def selftest_lean(maxlen=4, lean_file=None):
         'open Text in',
         '#eval IO.println (toString (((List.range %d) ++ %s).map (fun n => pyWs (Char.ofNat n))))' % (0x3100, q(str(c) for c in codepoints[0x3100:])),
     ]
+    # ---- the table format and the FIMI rows: ljust / rjust, lstrip / rstrip, strip of a given character, partition, the lines of a file,
+    #      the csv reader's fields and rows
+    widths = (0, 2, 5)
+    csv_texts = list(_texts(('0', '7', ' ', '\n'), maxlen + 1))
+    csv_lines = [t for t in csv_texts if '\n' not in t]
+    per_text = [
+        "[%s].map (fun w => (%s) (ljust ' ' w s))" % (', '.join(map(str, widths)), enc),
+        "[%s].map (fun w => (%s) (rjust ' ' w s))" % (', '.join(map(str, widths)), enc),
+        '[(%s) (lstrip pyWs s), (%s) (rstrip pyWs s)]' % (enc, enc),
+        "[(%s) (stripC 'a' s), (%s) (lstripC 'a' s), (%s) (rstripC 'a' s)]" % (enc, enc, enc),
+        "[(%s) (before '\\n' s), (%s) (after '\\n' s), (%s) (before 'a' s), (%s) (after 'a' s), (%s) (sepOf 'a' s)]" % (enc, enc, enc, enc, enc),
+        "(linesKeep '\\n' s).map (%s)" % enc,
+        "(s.splitOn 'a').map (%s)" % enc,
+    ]
+    for e in per_text:
+        prog += ['open Text in', '#eval IO.println (toString (selftestTexts.map (fun s => %s)))' % e]
+    pct_cases = [(t, A) for t in list(_texts(('%', '-', '1', 's', 'a'), 3)) + ['  %-3s|%-1s|%-10s|', '%3s|%0s|', '%-s%s', '%12s', 'a%-2s%', '%-1s', '%-0s',
+                                                                                 '%10s', '%-10s', '%01s', '%1s%-1s', 'a%-1sa', '%-1s|%-0s|', '%-12s|%3s|%-0s|']
+                 for A in ((), ('x',), ('xy z', ''), ('', 'X', 'long'))]
+    prog += ['open Text in',
+             '#eval IO.println (toString ((%s : List (List Char × List (List Char))).map (fun p => match pctFormat p.1 p.2 with '
+             '| some r => [1] ++ (%s) r | none => [0])))' % (q('(%s, %s)' % (_lean_str(t), q(_lean_str(a) for a in A)) for t, A in pct_cases), enc)]
+    prog += ['open Text in', 'def selftestCsvTexts : List (List Char) := ' + q(_lean_str(t) for t in csv_texts),
+             'open Text in', "#eval IO.println (toString (selftestCsvTexts.map (fun s => (csvRows '\\n' ' ' s).map (fun r => r.map (%s)))))" % enc,
+             'open Text in', 'def selftestCsvLines : List (List Char) := ' + q(_lean_str(t) for t in csv_lines),
+             'open Text in', "#eval IO.println (toString (selftestCsvLines.map (fun s => (csvFields ' ' s).map (%s))))" % enc]
     with tempfile.TemporaryDirectory() as d:
         fn = os.path.join(d, 'TextSelftest.lean')
         with open(fn, 'w', encoding='utf-8') as f:
             f.write(src + '\n\n' + '\n'.join(prog) + '\n')
         out = subprocess.run(['lake', 'env', 'lean', fn], cwd=LEAN_DIR, capture_output=True, text=True, timeout=900)
     lines = [l for l in out.stdout.splitlines() if l.startswith('[')]
-    assert out.returncode == 0 and len(lines) == 10, (out.returncode, out.stdout[-2000:], out.stderr[-2000:])
+    assert out.returncode == 0 and len(lines) == 20, (out.returncode, out.stdout[-2000:], out.stderr[-2000:])
     vals = [json.loads(l) for l in lines]
     n = 0
 
@@ -551,6 +1161,26 @@ def selftest_lean(maxlen=4, lean_file=None):
     cmp_(vals[7], [int(t) for t in digit_texts], ('int', digit_texts))
     cmp_(vals[8], [code(''.join({False: '.', True: 'X'}[v] for v in r)) for r in rows], ('row text', rows))
     cmp_(vals[9], [chr(c).isspace() for c in codepoints], ('isspace', codepoints))
+    cmp_(vals[10], [[code(t.ljust(w)) for w in widths] for t in texts], ('ljust', texts))
+    cmp_(vals[10], [[code(('%%-%ds' % w) % t) for w in widths] for t in texts], ('%-Ns', texts))
+    cmp_(vals[11], [[code(t.rjust(w)) for w in widths] for t in texts], ('rjust', texts))
+    cmp_(vals[11], [[code(('%%%ds' % w) % t) for w in widths] for t in texts], ('%Ns', texts))
+    cmp_(vals[12], [[code(t.lstrip()), code(t.rstrip())] for t in texts], ('lstrip / rstrip', texts))
+    cmp_(vals[13], [[code(t.strip('a')), code(t.lstrip('a')), code(t.rstrip('a'))] for t in texts], ('strip(c) / lstrip(c) / rstrip(c)', texts))
+    cmp_(vals[14], [[code(t.partition('\n')[0]), code(t.partition('\n')[2]), code(t.partition('a')[0]), code(t.partition('a')[2]), code(t.partition('a')[1])]
+                    for t in texts],
+         ('partition', texts))
+    cmp_(vals[15], [[code(l) for l in PyT.readlines(t)] for t in texts], ('lines of a file', texts))
+    cmp_(vals[16], [[code(p) for p in t.split('a')] for t in texts], ('split(c)', texts))
+    # the % operator: the Lean model agrees with the python copy on every case; where it gives a text, CPython gives the same text
+    assert vals[17] == [([1] + code(m_pct_format(t, A))) if m_pct_format(t, A) is not None else [0] for t, A in pct_cases]
+    for got, (t, A) in zip(vals[17], pct_cases):
+        if got[0] == 1:
+            assert got[1:] == code(t % A), (t, A)
+            n += 1
+    assert sum(1 for g in vals[17] if g[0] == 1) > 50
+    cmp_(vals[18], [[[code(f) for f in r] for r in PyT.csv_rows(t)] for t in csv_texts], ('csv reader rows', csv_texts))
+    cmp_(vals[19], [[code(f) for f in PyT.csv_rows(t + '\n')[0]] for t in csv_lines], ('csv reader fields of a line', csv_lines))
     return n
 
 
